@@ -179,7 +179,14 @@ class Interp:
             return True
         if isinstance(v, (type, types.FunctionType, types.ModuleType, enum.Enum, uuid.UUID)):
             return True
-        return bool(v)
+        if type(v).__name__ == "ArrSet":
+            return v.nonempty()
+        if type(v).__name__ == "PSet":
+            return len(v.items) > 0
+        if isinstance(v, (int, float, complex, str, bytes, tuple, list, dict, set, frozenset, range)) or type(v).__module__ in ("numpy", "builtins", "datetime", "pathlib"):
+            return bool(v)
+        # an engine value without a truth model: never fall back to Python's object truthiness (always True)
+        raise Unsupported(f"truth value of {type(v).__name__}")
 
     def is_none(self, v):
         if v is None:
@@ -546,6 +553,21 @@ class Interp:
                 return EngineCallable(lambda interp, a, kw, _m=v.methods[name]: _m(interp, a, kw), f"{v.tag}.{name}")
             if name == "__class__" and v.cls is not None:
                 return v.cls
+            if getattr(v, "is_class", False) and inspect.isclass(v.cls):
+                # a stand-in for the class itself (the `cls` of a classmethod): helpers defined on the real
+                # class are found there, so extracting a private helper does not change the outcome
+                for k in v.cls.__mro__:
+                    if name in k.__dict__:
+                        raw = k.__dict__[name]
+                        if isinstance(raw, staticmethod):
+                            return raw.__func__
+                        if isinstance(raw, classmethod):
+                            return BoundMethod(raw.__func__, v, k)
+                        if isinstance(raw, types.FunctionType):
+                            return raw
+                        if not isinstance(raw, property):
+                            return self.lift_const(raw)
+                        break
             self.raise_(AttributeError, f"{self.where()} {v.tag}.{name}")
         if isinstance(v, Opaque) and self.lenient and not v.tag.startswith("h5"):
             return self.getattr_opaque(v, name, frame)
